@@ -965,3 +965,25 @@ def flattened_of(t):
         if inner == ("elem", outer) and t[2] == ("elem", inner):
             return outer
     return None
+
+
+def bound_margs(prog, t):
+    """formal -> actual term for a method-call term whose method name has
+    one signature in the package (see Terms._canon_mcall); positional and
+    keyword spellings give the same mapping.  None when the method is not a
+    repository method or the name is ambiguous."""
+    import ast as _ast
+    if t[0] != "mcall":
+        return None
+    try:
+        cands = [g for g in prog.methods_named(t[2])
+                 if not isinstance(g.node, _ast.Lambda)
+                 and g.params[:1] == ["self"]]
+    except Exception:  # noqa: BLE001
+        return None
+    if not cands or len({tuple(g.params) for g in cands}) != 1:
+        return None
+    ps = [p for p in cands[0].params[1:] if not p.startswith("*")]
+    out = dict(zip(ps, t[3]))
+    out.update(dict(t[4]))
+    return out
